@@ -253,6 +253,16 @@ class Session:
             if at is None:
                 self.d = self.dump()   # the query may have merged divergent operation heads
         d0 = self.d
+        vis_before = None
+        if self.mode == "c42":
+            # commits visible in the view the command starts from (the --at-op operation, or the head)
+            idx0 = cd.op_index(d0)
+            if atop not in ("", "@"):
+                at_ops = [o for o in d0["ops"] if o["id"].startswith(atop)]
+            else:
+                at_ops = [idx0[h] for h in d0["op_heads"]]
+            if len(at_ops) == 1:
+                vis_before = sorted(cd.short(c) for c in cd.visible_commits(d0, at_ops[0]))
         pre = self.disk()
         rec_pre = self.recorded(d0)
         wcs_pre = self.wcstate(d0)
@@ -287,7 +297,7 @@ class Session:
                 "err": err[-160:] if rc != 0 else "",
             })
         else:
-            if imm_before is None:
+            if imm_before is None or vis_before is None:
                 return
             idx = cd.op_index(d1)
             if atop not in ("", "@"):
@@ -308,6 +318,6 @@ class Session:
             self.records.append({
                 "op": "imm", "case": self.case, "i": self.commands, "ws": wsname, "kind": kind, "argv": argv,
                 "atop": bool(atop), "rc": rc, "exempt": kind in EXEMPT_KINDS,
-                "setting": self.imm, "imm_before": imm_before, "visible_after": vis,
+                "setting": self.imm, "imm_before": imm_before, "visible_before": vis_before, "visible_after": vis,
                 "nops": len(new_ops), "err": err[-160:] if rc != 0 else "",
             })
